@@ -193,6 +193,7 @@ ln = F('ln', Real, Real)
 exp = F('exp', Real, Real)
 axiom('sqrt.def', forall([x], z3.Implies(x >= 0, z3.And(sqrt(x) >= 0, sqrt(x) * sqrt(x) == x)), [sqrt(x)]),
       ['sqrt'], 'numpy')
+axiom('ln.nonneg', forall([x], z3.Implies(x >= 1, ln(x) >= 0), [ln(x)]), ['ln'], 'numpy')
 axiom('exp.pos', forall([x], exp(x) > 0, [exp(x)]), ['exp'], 'numpy')
 axiom('exp.zero', exp(0) == 1, ['exp'], 'numpy')
 axiom('exp.mono', forall([x, y], z3.Implies(x <= y, exp(x) <= exp(y)), [(exp(x), exp(y))]), ['exp'], 'numpy')
@@ -203,3 +204,9 @@ axiom('isnan', forall([x], isnan(x) == (x == NAN), [isnan(x)]), ['isnan'])
 rng_init = F('rng_init', Int, Rng)       # np.random.default_rng(seed)
 EPS = z3.Const('FLOAT_EPS', Real)        # np.finfo(float).eps
 axiom('eps.pos', EPS > 0, ['FLOAT_EPS'], 'numpy')
+
+# a sum of positive values over a non-empty key set is positive (witness form)
+mposwit = F('mposwit', ASeq, RArr, Arm)
+axiom('msum.pos', forall([s, c1], z3.Or(msum(s, c1) > 0, alen(s) == 0,
+                                         z3.And(amem(s, mposwit(s, c1)), c1[mposwit(s, c1)] <= 0)),
+                         [msum(s, c1)]), ['msum'], 'definitional')
